@@ -93,8 +93,66 @@ class Canon:
         if opn == "ALLDIFF":
             return ("alldiff",) + tuple(sorted(xs, key=repr))
         if opn and opn.startswith("GRAPH_"):
-            return (opn,) + tuple(xs)
+            return self.native(opn, xs)
         raise Undecided(f"operator {opn}")
+
+    def fold(self, t: T) -> T:
+        """constant folding after construction (both sides of a comparison go through it)"""
+        if not isinstance(t, tuple) or not t or not isinstance(t[0], str):
+            return t
+        k = t[0]
+        if k == "c" or (len(t) == 2 and isinstance(t[1], int) and k not in ("b2i", "not", "neg")):
+            return t
+        if k == "b2i":
+            x = self.fold(t[1])
+            return ("c", 1 if x[1] else 0) if x[0] == "c" else ("b2i", x)
+        if k == "ite":
+            c, a, b = self.fold(t[1]), self.fold(t[2]), self.fold(t[3])
+            if c[0] == "c":
+                return a if c[1] else b
+            if a == ("c", 1) and b == ("c", 0):
+                return ("b2i", c)
+            if a == ("c", 0) and b == ("c", 1):
+                return ("b2i", self.neg(c))
+            return ("ite", c, a, b)
+        if k == "not":
+            return self.neg(self.fold(t[1]))
+        if k in ("and", "or"):
+            return self.nary(k, [self.fold(x) for x in t[1:]])
+        if k == "add":
+            return self.add([self.fold(x) for x in t[1:]])
+        if k == "iff":
+            return self.iff(self.fold(t[1]), self.fold(t[2]))
+        if k == "cmp":
+            a, b = self.fold(t[2]), self.fold(t[3])
+            off = t[4][1] if len(t) > 4 else 0
+            if off:
+                b = self.add([b, ("c", off)])
+            if a[0] == "c" and b[0] == "c" and not isinstance(a[1], bool) and not isinstance(b[1], bool):
+                x, y = a[1], b[1]
+                return ("c", {"<": x < y, "<=": x <= y, ">": x > y, ">=": x >= y, "==": x == y, "!=": x != y}[t[1]])
+            return self.cmp(t[1], a, b)
+        if k == "neg":
+            x = self.fold(t[1])
+            return ("c", -x[1]) if x[0] == "c" else ("neg", x)
+        if k.startswith("GRAPH_"):
+            return t
+        return (k,) + tuple(self.fold(x) if isinstance(x, tuple) else x for x in t[1:])
+
+    def native(self, opn: str, xs: List[T]) -> T:
+        """native operators: the order in which the edges are listed is immaterial; borders travel with their edge"""
+        try:
+            n, m = xs[0][1], xs[1][1]
+            verts = tuple(xs[2:2 + n])
+            ends = xs[2 + n:2 + n + 2 * m]
+            rest = xs[2 + n + 2 * m:]
+            pairs = []
+            for k in range(m):
+                a, b = sorted([ends[2 * k][1], ends[2 * k + 1][1]])
+                pairs.append((a, b) + ((rest[k],) if len(rest) == m else ()))
+            return (opn, n, m, verts, tuple(sorted(pairs, key=repr)))
+        except (IndexError, TypeError):
+            return (opn,) + tuple(xs)
 
     def neg(self, x: T) -> T:
         if x[0] == "c" and isinstance(x[1], bool):
@@ -313,15 +371,22 @@ def user_names(inst: Instance) -> Dict[int, T]:
     names: Dict[int, T] = {}
     for a in inst.arrays:
         if a["user"]:
+            if "user_map" in a:
+                names.update(a["user_map"])
+                continue
             for k, vid in enumerate(a["ids"]):
                 names[vid] = (a["user"], k)
     return names
 
 
+LAST_MATCH: Dict[int, T] = {}  # variable naming under which the last successful comparison held
+
+
 def compare(inst: Instance, refs: List[RefArray], ref_constraints: Callable[[], List[T]], offsets: Optional[Dict[str, int]] = None
             ) -> Tuple[bool, str]:
     """(equal?, description of the first difference)"""
-    want = sorted((c for c in ref_constraints() if c != ("c", True)), key=repr)
+    fold0 = Canon({}).fold
+    want = sorted((c for c in (fold0(x) for x in ref_constraints()) if c != ("c", True)), key=repr)
     best = None
     cands = match_arrays(inst, refs)
     if not cands:
@@ -332,8 +397,10 @@ def compare(inst: Instance, refs: List[RefArray], ref_constraints: Callable[[], 
         names = dict(names)
         names.update(user_names(inst))
         cn = Canon(names)
-        got = sorted((c for c in (cn.term(t) for t in inst.constraints()) if c != ("c", True)), key=repr)
+        got = sorted((c for c in (cn.fold(cn.term(t)) for t in inst.constraints()) if c != ("c", True)), key=repr)
         if got == want:
+            LAST_MATCH.clear()
+            LAST_MATCH.update(names)
             return True, ""
         missing = [c for c in want if c not in got]
         extra = [c for c in got if c not in want]
